@@ -30,10 +30,16 @@ def generator_sets(tier):
         'kill-start-other': (((('kill', 0), ('start', 0)), None),
                              ((('kill', 1), ('start', 1)), None), ((), RET)),
     }
+    # three coroutines pausing in the same frame for 0.5 / 2 / 1 time units:
+    # the wait heap holds three records in a non-sorted order
+    waiters = (script_from_yields((0.5, None)), script_from_yields((2,)),
+               script_from_yields((1, None)))
     if tier == 'quick':
         for name in ('kill-self-return', 'kill-start-other'):
             sets[name] = (g1, script_from_yields((None, 1)), variants[name])
+        sets['three-waiters'] = waiters
         return sets
+    sets['three-waiters'] = waiters
     for name, g2 in variants.items():
         sets[name] = (g0, g1, g2)
     return sets
@@ -41,8 +47,10 @@ def generator_sets(tier):
 
 def drivers(tier):
     out = {}
-    dts = (1,) if tier == 'quick' else (0, 1)
     for name, gens in generator_sets(tier).items():
+        dts = (1,) if tier == 'quick' else (0, 1)
+        if name == 'three-waiters':
+            dts = (0.5, 1)
         out[name] = (CoroDriver(name, gens, dts=dts, max_started=3,
                                 fixed=True, outside_kill=True,
                                 bad_args=True),
